@@ -1077,7 +1077,13 @@ func main() {
 	}
 	full("exh1", 1, 8, 4)
 	full("exh2", 2, 8, 4)
-	full("exh3", 3, 8, 4)
+	maxL := 3
+	if v := os.Getenv("VERIF_C17_MAXL"); v != "" { // development aid only: skip the 3-chunk enumeration and the 4-chunk sample
+		fmt.Sscan(v, &maxL)
+	}
+	if maxL >= 3 {
+		full("exh3", 3, 8, 4)
+	}
 	if os.Getenv("VERIF_C17_MAXL") == "" {
 		sample("exh4", 4, r.Pick(4000, 100000))
 	}
